@@ -151,6 +151,12 @@ def programs(tier: str):
                                 b["child"] = blk
                             blk = b
                         yield {"outer": False, "block": blk, "cancels": cancels, "deep": depth}
+    # a block named with formatting characters, a blocked task is waiting
+    for suffix in (" 100%", " %s"):
+        for ending in ("return", "raise"):
+            p = _prog((1,), ending, 0, False)
+            p["scope_name_suffix"] = suffix
+            yield p
     # tasks spawned from callables that are not plain coroutine functions
     for form in ("object", "lambda", "partial", "wrapped"):
         for i in (1, 3):
